@@ -8,3 +8,5 @@ pub use linear_model::*;
 pub use linearizer::*;
 pub use standard_linear_model::*;
 pub use standardizer::*;
+#[cfg(feature = "verif-hooks")]
+pub use bounds::verif as verif_bounds;
